@@ -2371,3 +2371,35 @@ CASES += [
                 watcher_idx += 1;
             } else {"""),
 ]
+
+CASES += [
+    # ------------------------------------------------------------------ SH2 binary-case (round 9: C03-r9m1)
+    dict(name="sh2-sdd-binary-fast-path-sign-dependent", file=SB, rule="SH", props=["C03"], expect="condition:SH2:binary-case",
+         old="""            _ => {
+                let mut v = Vec::new();
+                // f is a node; recurse and compress the result""",
+         new="""            SddPtr::BDD(bdd) | SddPtr::ComplBDD(bdd) if bdd.label() == lbl => {
+                if !f.is_neg() == value {
+                    f.high()
+                } else {
+                    f.low()
+                }
+            }
+            _ => {
+                let mut v = Vec::new();
+                // f is a node; recurse and compress the result"""),
+    dict(name="sh2-sdd-binary-fast-path-ok", file=SB, rule="SH", props=["C03"], expect=None,
+         old="""            _ => {
+                let mut v = Vec::new();
+                // f is a node; recurse and compress the result""",
+         new="""            SddPtr::BDD(bdd) | SddPtr::ComplBDD(bdd) if bdd.label() == lbl => {
+                if value {
+                    f.high()
+                } else {
+                    f.low()
+                }
+            }
+            _ => {
+                let mut v = Vec::new();
+                // f is a node; recurse and compress the result"""),
+]
